@@ -234,6 +234,9 @@ impl SemaphoreState {
                     wait_node.task = Some(cx.waker().clone());
                     wait_node.state = PollState::Waiting;
                     self.waiters.add_front(wait_node);
+                    // The permits this waiter had been notified for might
+                    // still satisfy an older waiter with a smaller request
+                    self.wakeup_waiters();
                     Poll::Pending
                 }
             }
